@@ -85,10 +85,14 @@ pub struct Directive {
     /// 98 = before every packet but the acknowledgement)
     #[serde(default)]
     pub delay_ms: Option<(usize, u64)>,
+    /// once the exchange is complete the terminal writes these stray bytes (the beginning of a late packet) and then
+    /// falls silent on this connection, keeping it open
+    #[serde(default)]
+    pub stray_after: Option<Vec<u8>>,
 }
 impl Default for Directive {
     fn default() -> Self {
-        Directive { outcome: Outcome::Normal, fault: None, delay: None, delay_ms: None }
+        Directive { outcome: Outcome::Normal, fault: None, delay: None, delay_ms: None, stray_after: None }
     }
 }
 #[derive(Clone, Copy, Debug, PartialEq, serde::Serialize, serde::Deserialize)]
@@ -377,7 +381,8 @@ fn respond(g: &mut Sim, kind: Kind, apdu: &[u8], d: &Directive) -> Vec<Vec<u8>> 
         if matches!(kind, Kind::Reservation | Kind::PartialReversal | Kind::PreAuthReversal | Kind::EndOfDay) {
             // 06 D1: print line "DECLINED"
             r.push(vec![0x06, 0xd1, 0x09, 0x00, b'D', b'E', b'C', b'L', b'I', b'N', b'E', b'D']);
-            let rc = g.receipt_seq[g.receipts_issued % g.receipt_seq.len()];
+            // the declined attempt has a receipt number of its own (never one that is or will be booked)
+            let rc = (g.receipt_seq[g.receipts_issued % g.receipt_seq.len()] + 3332) % 9999 + 1;
             let si = make(&t, "StatusInformation", &[("result_code", opt_u(Some(c as u64))), ("amount", opt_u(Some(1))), ("receipt_no", opt_u(Some(rc))), ("trace_number", opt_u(Some(7)))]);
             r.push(enc(&t, "StatusInformation", &si));
         }
@@ -579,6 +584,26 @@ pub async fn serve(mut s: DuplexStream, sim: Shared, conn: usize) {
                 }
             }
         }
+        if let Some(bytes) = &d.stray_after {
+            let _ = s.write_all(bytes).await;
+            {
+                let mut g = sim.lock().unwrap();
+                let t = g.now();
+                g.log.push(SEv::Fault { conn, t, kind: FaultKind::Silence, pos: 98 });
+            }
+            let mut sink = [0u8; 64];
+            loop {
+                match s.read(&mut sink).await {
+                    Ok(0) | Err(_) => {
+                        let mut g = sim.lock().unwrap();
+                        let t = g.now();
+                        g.log.push(SEv::PeerClosed { conn, t });
+                        return;
+                    }
+                    Ok(_) => {}
+                }
+            }
+        }
         // `Close` at a position behind the last packet: the exchange completes and the terminal then drops the idle connection
         if let Some((FaultKind::Close, pos)) = d.fault {
             if pos >= replies.len() {
@@ -763,6 +788,8 @@ pub enum Op {
     Begin(String),
     Commit(String, u64),
     Cancel(String),
+    /// no call: the caller lets this many milliseconds pass
+    Idle(u64),
 }
 pub const DAY: Duration = Duration::from_secs(86_400);
 
@@ -777,6 +804,10 @@ pub async fn call(w: &World, feig: &mut Feig, op: &Op) -> CallOutcome {
     let start = tokio::time::Instant::now();
     let fut = async {
         match op {
+            Op::Idle(ms) => {
+                tokio::time::sleep(Duration::from_millis(*ms)).await;
+                Ok(Ret::Unit)
+            }
             Op::Configure => feig.configure().await.map(|_| Ret::Unit),
             Op::ReadCard => feig.read_card().await.map(|c| match c {
                 CardInfo::Bank => Ret::Card(None),
